@@ -294,21 +294,17 @@ pub mod unix {
 
                                         debug!("Write response");
 
+                                        // `post_send` runs also when the client is gone (it may be
+                                        // what lets a shutdown complete).
                                         #[cfg(feature = "uring")]
                                         if let (Err(err), _) = connection.write_all(data).await {
                                             warn!("Failed to write response: {err:?}");
-                                            return;
                                         }
                                         #[cfg(not(feature = "uring"))]
                                         if let Err(err) = connection.write_all(&data).await {
                                             warn!("Failed to write response: {err:?}");
-                                            return;
-                                        }
-
-                                        #[cfg(not(feature = "uring"))]
-                                        if let Err(err) = connection.flush().await {
+                                        } else if let Err(err) = connection.flush().await {
                                             warn!("Failed to flush response: {err:?}");
-                                            return;
                                         }
 
                                         debug!("Wrote response");
